@@ -6,16 +6,16 @@ cd "$(dirname "$0")"
 export GOFLAGS=-mod=mod GOPROXY=off GOSUMDB=off GOTOOLCHAIN=local
 rm -rf build
 mkdir -p build evidence replays
-cd coq
-rm -f Makefile Makefile.conf .Makefile.d
-find theories -name '*.vo' -o -name '*.vok' -o -name '*.vos' -o -name '*.glob' -o -name '.*.aux' | xargs rm -f
-coq_makefile -f _CoqProject -o Makefile
-timeout 3000 make -j16 > ../build/coq-build.log 2>&1 || { tail -40 ../build/coq-build.log; exit 1; }
-cd ..
+rm -f coq/Makefile coq/Makefile.conf coq/.Makefile.d
+find coq \( -name '*.vo' -o -name '*.vok' -o -name '*.vos' -o -name '*.glob' -o -name '.*.aux' \) -print | xargs rm -f
 python3 - <<'PY'
 import sys
 sys.path.insert(0, "driver")
 import lib
+rc, out = lib.coq_make()
+open("build/coq-build.log", "w").write(out)
+if rc != 0:
+    print(out[-4000:]); sys.exit(1)
 lib.build_model()
 lib.build_harness()
 print("setup ok")
